@@ -31,15 +31,16 @@ MAP = {
     "C01_m3": [("C01", "alac.stage.write.short.ch2")], "C01_m4": [("C01", "fconv.double64.d2i"), ("C02", "fconv.double64.d2i")],
     "C03_m3": [("C03", "readf.j")], "C03_m4": [("C17", "cmd.SFC_GET_CUE"), ("C03", "cmd.SFC_GET_CUE")],
     "C04_m3": [("C04", "alac.stage.pakt")], "C04_m4": [("C04", "rt.wavex")],
-    "C05_m3": [("C05", "alac.stage.read.double.ch2")], "C05_m4": [("C05", "blk.ms")],
-    "C06_m3": [("C06", "alac.stage.seek")], "C06_m4": [("C06", "paf")],
-    "C07_m3": [("C07", "alac.stage.write.float.ch2.p3")], "C07_m4": [("C07", "dpcm8")],
+    "C05_m3": [("C05", "alac.stage.read.double.ch2")], "C05_m4": [("C05", "ms.stage.write.float")],
+    "C06_m3": [("C06", "alac.stage.seek")], "C06_m4": [("C06", "stage.paf24.read.short")],
+    "C07_m3": [("C07", "alac.stage.write.float.ch2.p3")], "C07_m4": [("C07", "xi.split.d2dsc")],
     "C11_m3": [("C11", "rt.upd.w64")], "C11_m4": [("C11", "cmd.SFC_UPDATE_HEADER_NOW")],
     "C12_m3": [("C12", None)], "C12_m4": [("C12", "chanmask")],
     "C15_m3": [("C15", "readf.j")], "C15_m4": [("C15", "gsm")],
     "C16_m3": [("C16", "setters_close")], "C16_m4": [("C16", None)],
     "R_g711_intmin": [("C20", "g711.H_ENCODE_I")], "R_d2sc_clip": [("C02", "sc.WR_D.norm1.clip1")], "R_cmdstr0": [("C17", "cmd.SFC_GET_LIB_VERSION")],
     "R_embedshort": [("C14", "embed_open.au.k4,embed_open.au.k1.")], "R_peak_double": [("C18", "peak.double64.double.ch1")], "R_sds_close": [("C01", "blk.sds16.flush.k10")],
+    "R_paf24_norm": [("C05", "stage.paf24.write.float")],
     "R_d2i_clip": [("C02", "fconv.double64.d2i_clip")],
     "R_cart_calloc": [("C03", "wavleaf.cart")],
     "R_wchunk_count": [("C13", "wgrow.count20,chunk.seq.33")], "R_iter_stale": [("C13", "chunk.iter")],
